@@ -25,8 +25,20 @@ func RunHistory(s *Stack, h *History) (string, error) {
 	s.SetForbidden(m.ForbiddenHashes())
 	steps := make([]string, 0, len(h.Subs))
 	var last []HeaderRow
+	sparse := false
+	for _, x := range h.X {
+		if x == "sparse" {
+			sparse = true
+		}
+	}
 	for i := range h.Subs {
 		o := AddOutcome(s, m.Src[i])
+		if sparse && !SparseSampled(i, len(h.Subs)) {
+			// long histories ("x=sparse" in the case line): labels and tip are recorded for the sampled steps only
+			// (every 97th and the last three); the outcome of every step and the final table are always recorded
+			steps = append(steps, o+"/-/-")
+			continue
+		}
 		states, tip, rows, err := StatesAndTip(s, m)
 		if err != nil {
 			return "", err
@@ -42,6 +54,9 @@ func RunHistory(s *Stack, h *History) (string, error) {
 	}
 	return strings.Join(steps, ";") + "|" + RowsString(last, m), nil
 }
+
+// SparseSampled: the steps of an "x=sparse" history at which labels and tip are recorded (same rule in vchain.ml).
+func SparseSampled(i, n int) bool { return i >= n-3 || (i+1)%97 == 0 }
 
 func corpusLines(c *Ctx, prop string) []string {
 	dir := os.Getenv("VERIF_DIR")
@@ -118,6 +133,12 @@ func runC01(c *Ctx) error {
 	})
 	if eerr != nil {
 		return eerr
+	}
+	// reorganisations of more than 500 / 1000 headers in one submission
+	for _, h := range LongReorgHistories(c.Thorough()) {
+		if err := do(h, "long-reorg"); err != nil {
+			return err
+		}
 	}
 	// random: ties common, deep reorganisations, reorg-back, orphan chains whose parent arrives later
 	n := c.Pick(600, 6000)
